@@ -373,7 +373,7 @@ theorem pi_wellformed_accepted :
 /-- `<Key a=b>k</Key>` -/
 def docAttr : Bytes := [60, 75, 101, 121, 32, 97, 61, 98, 62, 107, 60, 47, 75, 101, 121, 62]
 
-/-- F-xml-5b (`xml-illformed-accepted:attribute-syntax`, FIXED by ab8d746): an unquoted attribute value,
+/-- F-xml-5b (`xml-illformed-accepted:attribute-syntax`, FIXED by 2bbb69d): an unquoted attribute value,
 `<Key a=b>k</Key>` (the witness `w-illformed-attr`, inside `<Tag>` there), is refused with `InvalidXml` (before:
 accepted as `k`, the attributes of the start tag were never looked at) … -/
 theorem attr_unquoted_refused :
